@@ -146,6 +146,24 @@ REJECT = [
     'permit(principal, action, resource) when { true } unless;', 'permit(principal, action, resource) whenever { true };',
 ]
 
+# every reserved word in every position where the grammar wants an identifier (IDENT excludes the reserved words)
+RESERVED = ['true', 'false', 'if', 'then', 'else', 'in', 'like', 'has', 'is', '__cedar']
+IDENT_POSITIONS = ['permit(principal, action, resource) when { context.%s };', 'permit(principal, action, resource) when { context has %s };',
+                   'permit(principal, action, resource) when { {%s: 1} };', 'permit(principal, action, resource) when { principal is %s };',
+                   'permit(principal, action, resource) when { principal is NS::%s };', 'permit(principal, action, resource) when { principal is %s::T };',
+                   'permit(principal, action, resource) when { principal == %s::"x" };', 'permit(principal, action, resource) when { principal == A::%s::B::"x" };',
+                   'permit(principal == %s::"x", action, resource);', 'permit(principal is %s, action, resource);', 'permit(principal, action in [A::%s::"x"], resource);',
+                   'permit(principal, action, resource is T in %s::"x");', 'permit(principal, action, resource) when { %s(1) };',
+                   'permit(principal, action, resource) when { context.%s(1) };', 'permit(principal, action, resource) when { %s::f(1) };',
+                   'permit(principal, action, resource) when { context has a.%s };', 'permit(principal, action, resource) when { %s };']
+for _k in RESERVED:
+    for _t in IDENT_POSITIONS:
+        _text = _t % _k
+        if _text in ('permit(principal, action, resource) when { true };', 'permit(principal, action, resource) when { false };'):
+            continue
+        if _text not in REJECT:
+            REJECT.append(_text)
+
 
 def run(ctx):
     b = lib.standard_build(ctx, theorems=False)   # no Coq theorem for this property yet: see MANIFEST level
